@@ -258,6 +258,7 @@ Proof.
   - repeat split; auto; discriminate.
   - unfold do_attach. destruct (al_mem name_eqb (fib s) p); repeat split; auto; discriminate.
   - repeat split; auto; discriminate.
+  - repeat split; auto; discriminate.
 Qed.
 
 Lemma expire_idem fe t st : expire fe false t (expire fe false t st) = expire fe false t st.
@@ -302,6 +303,7 @@ Proof.
     - apply (step_noop fe (tie_mid m) t0 s1 I1' N1); [reflexivity | apply core_eq_refl].
     - apply (step_noop fe (tie_mid m) t0 s1 I1' N1); [reflexivity|].
       cbn [apply]. unfold do_attach. destruct (al_mem name_eqb _ p); [apply core_eq_refl | repeat split].
+    - apply (step_noop fe (tie_mid m) t0 s1 I1' N1); [reflexivity | repeat split].
     - apply (step_noop fe (tie_mid m) t0 s1 I1' N1); [reflexivity | repeat split].
   }
   destruct MAIN as [M1 [M2 M3]].
@@ -569,7 +571,7 @@ Proof.
   - destruct h as [|[m e] rest]; [cbn; split; [split; auto | auto]|].
     cbn [length] in Len.
 
-    destruct e as [i n cbp dig life vm t| | | | | | | | | ].
+    destruct e as [i n cbp dig life vm t| | | | | | | | | | ].
     + (* Express, then Await *)
       cbn [wf_from] in WF. destruct rest as [|[m' e'] h']; [destruct WF|]. destruct e'; try (exfalso; exact WF).
       destruct WF as [-> [-> [-> [-> [LE [L [NS [S WF]]]]]]]].
@@ -616,5 +618,9 @@ Proof.
     + destruct WF as [LE WF]. cbn [fold_left].
       destruct (step_plain fe s m (Incoming k0 n has_params sig digest_ok v t) I SH LE eq_refl) as [I' [SH' [A' [N' [S' IDS']]]]].
       destruct (IH rest (step fe s (m, Incoming k0 n has_params sig digest_ok v t)) seen) as [GI AB]; [lia | split; auto | rewrite IDS'; auto | rewrite N', S'; exact WF |].
+      split; auto. intros j. rewrite AB, A'. reflexivity.
+    + destruct WF as [LE WF]. cbn [fold_left].
+      destruct (step_plain fe s m (SetDefault own t) I SH LE eq_refl) as [I' [SH' [A' [N' [S' IDS']]]]].
+      destruct (IH rest (step fe s (m, SetDefault own t)) seen) as [GI AB]; [lia | split; auto | rewrite IDS'; auto | rewrite N', S'; exact WF |].
       split; auto. intros j. rewrite AB, A'. reflexivity.
 Qed.
